@@ -28,8 +28,12 @@ Definition DEFAULT : N := 0.
 (* ------------------------------------------------------------------ *)
 (* abstract symbol table                                               *)
 
-(* d_kind: 0 Definition, 1 Target, 2 QualifiedTarget, 3 FileRef(Name), 4 FileRef(Star) *)
-Record sdecl := { d_name : option N; d_start : N; d_end : N; d_kind : N }.
+(* d_kind: 0 Definition, 1 Target, 2 QualifiedTarget, 3 FileRef(Name), 4 FileRef(Star)
+   d_target (kind 1, 2): module.esm().symbol_id_from_swc(id).and_then(|id| module.symbol(id))
+   d_file   (kind 3, 4): ModuleGraph::resolve_dependency(file_dep.specifier, module, true)
+   d_import (kind 3)   : the imported export name *)
+Record sdecl := { d_name : option N; d_start : N; d_end : N; d_kind : N;
+                  d_target : option N; d_file : option N; d_import : N }.
 
 Record sym := {
   s_id : N;
@@ -297,3 +301,124 @@ Definition gres_okb (w : sworld) (g : gres) : bool :=
 
 Definition goto_okb (w : sworld) (gs : list (N * list gres)) : bool :=
   forallb (fun q => forallb (gres_okb w) (snd q)) gs.
+
+(* ------------------------------------------------------------------ *)
+(* go-to-definition, fragment without qualified names                  *)
+(*   src/symbols/cross_module.rs find_definition_paths_internal (212-309),
+     go_to_file_export (311-394), flattened by into_definitions_or_unresolveds
+     (155-193: the leaves of the path tree in depth-first order).
+   SymbolDeclKind::QualifiedTarget (`import X = A.B`) is NOT followed by this
+   model (its resolution restarts with a fresh visited set in the code, which
+   is the cause of F-C16c); the model yields the marker GUnres m 999 there
+   and the correspondence is restricted to programs without such declarations. *)
+
+Definition usym : Type := (N * N)%type.     (* UniqueSymbolId: module, symbol *)
+Definition ueqb (a b : usym) : bool := N.eqb (fst a) (fst b) && N.eqb (snd a) (snd b).
+Definition umem (u : usym) (l : list usym) : bool := existsb (ueqb u) l.
+
+Fixpoint item_export (it : item) : N * N :=
+  match it with
+  | Export m s => (m, s)
+  | ReExportAll _ _ next => item_export next
+  end.
+
+Definition NOT_MODELLED : N := 999.
+
+(* dep_module.module_symbol().exports().get(name).and_then(|id| dep_module.symbol(id)) *)
+Definition own_export_symbol (w : sworld) (dep name : N) : option N :=
+  match lookup name (own w dep) with
+  | Some es => match find_sym (sm_tab (get_mod w dep)) es with Some _ => Some es | None => None end
+  | None => None
+  end.
+
+(* go_to_file_export, the loop over dep_module.re_export_all_specifiers() *)
+Fixpoint file_export_stars (rec : N -> N -> list usym -> option (list gres * list usym))
+         (w : sworld) (dep name : N) (stars : list (N * option N)) (visited : list usym)
+  : option (list gres * list usym) :=
+  match stars with
+  | [] => Some ([GUnres dep 2], visited)
+  | (_, tgt) :: rest =>
+      match option_bind tgt (spec_to_module w) with
+      | Some m' =>
+          match exports_inner (length (sw_mods w)) w m' [] with
+          | None => None
+          | Some (inner, _) =>
+              match lookup name (resolved inner) with
+              | Some it =>
+                  match rec (fst (item_export it)) (snd (item_export it)) visited with
+                  | None => None
+                  | Some (paths, visited') =>
+                      match paths with
+                      | _ :: _ => Some (paths, visited')
+                      | [] => file_export_stars rec w dep name rest visited'
+                      end
+                  end
+              | None => file_export_stars rec w dep name rest visited
+              end
+          end
+      | None => file_export_stars rec w dep name rest visited
+      end
+  end.
+
+(* the loop over symbol.decls(); [i] = index of the head declaration *)
+Fixpoint decls_loop (rec : N -> N -> list usym -> option (list gres * list usym))
+         (w : sworld) (m s : N) (ds : list sdecl) (i : N) (visited : list usym)
+  : option (list gres * list usym) :=
+  match ds with
+  | [] => Some ([], visited)
+  | d :: rest =>
+      let step :=
+        if N.eqb (d_kind d) 0 then Some ([GDef m s i false], visited)
+        else if N.eqb (d_kind d) 4 then Some ([GDef m s i true], visited)
+        else if N.eqb (d_kind d) 1 then
+          match d_target d with
+          | Some s' => rec m s' visited
+          | None => Some ([], visited)
+          end
+        else if N.eqb (d_kind d) 3 then
+          match option_bind (d_file d) (spec_to_module w) with
+          | None => Some ([GUnres m 1], visited)
+          | Some dep =>
+              match own_export_symbol w dep (d_import d) with
+              | Some es => rec dep es visited
+              | None => file_export_stars rec w dep (d_import d) (sm_stars (get_mod w dep)) visited
+              end
+          end
+        else Some ([GUnres m NOT_MODELLED], visited) in
+      match step with
+      | None => None
+      | Some (ls, visited') =>
+          match decls_loop rec w m s rest (i + 1) visited' with
+          | None => None
+          | Some (ls', visited'') => Some (ls ++ ls', visited'')
+          end
+      end
+  end.
+
+(* find_definition_paths_internal, flattened; None = out of fuel *)
+Fixpoint find_defs (fuel : nat) (w : sworld) (m s : N) (visited : list usym)
+  : option (list gres * list usym) :=
+  if umem (m, s) visited then Some ([], visited)
+  else match find_sym (sm_tab (get_mod w m)) s with
+       | None => Some ([], visited)          (* callers only pass existing symbols *)
+       | Some sy =>
+           match fuel with
+           | O => None
+           | S f => decls_loop (find_defs f w) w m s (s_decls sy) 0 ((m, s) :: visited)
+           end
+       end.
+
+(* all symbols of the world *)
+Definition universe (w : sworld) : list usym :=
+  flat_map (fun e => map (fun sy => (fst e, s_id sy)) (t_syms (sm_tab (snd e)))) (sw_mods w).
+
+(* RootSymbol::go_to_definitions_or_unresolveds(module, symbol) *)
+Definition goto_defs (w : sworld) (m s : N) : option (list gres) :=
+  match find_defs (S (length (universe w))) w m s [] with
+  | Some (ls, _) => Some ls
+  | None => None
+  end.
+
+Definition has_qualified (w : sworld) : bool :=
+  existsb (fun e => existsb (fun sy => existsb (fun d => N.eqb (d_kind d) 2) (s_decls sy))
+                            (t_syms (sm_tab (snd e)))) (sw_mods w).
